@@ -2,26 +2,26 @@
 """Writes MANIFEST.json (run from /verif). Texts are per property; commands are uniform."""
 import json
 props = {
- "C01": ("sim", "property-based testing (proptest): generated programs x shell schedules x hosts; model-free trace invariants (hand-over exactly once, delivery, event order) + trace-guided refinement against a reference runtime", "§7 C01, §4, §14.2"),
- "C02": ("sim", "generated histories with repeated / late / notification / ended-stream resolutions on typed and serialized paths; results and receivers compared with the reference", "§7 C02"),
- "C03": ("sim", "re-entrancy flag + applied-event log vs reference; per-emitter order; every emitted event applied before the call returns", "§7 C03"),
- "C04": ("sim", "combinator expressions judged by trace-guided refinement, direct host", "§7 C04"),
- "C05": ("sim", "property-based testing: deeply wrapped programs on six hosts (direct, stream-polled, Core command API, Core legacy API, bincode bridge, JSON bridge) against one reference; plus reference-free lock-step comparison of the hosts' observations", "§7 C05, §14.2"),
- "C06": ("sim", "aborts / drops at generated points, late resolutions afterwards; reference rules: aborted work may be dropped, must never be polled", "§7 C06"),
- "C07": ("sim", "is_done and discarded/kept tasks vs reference after every action", "§7 C07"),
+ "C01": ("sim", "property-based testing (proptest): generated programs x shell schedules x hosts; model-free trace invariants (hand-over exactly once, delivery, event order) + trace-guided refinement against a reference runtime; in the thorough tier also coverage-guided fuzzing (libFuzzer target sim_case: the fuzzer's bytes drive the campaign's own proptest generator, the campaign's oracle is inside the target)", "§7 C01, §4, §14.2"),
+ "C02": ("sim", "property-based testing (proptest): generated histories with repeated / late / notification / ended-stream resolutions on typed and serialized paths; results and receivers compared with the reference; in the thorough tier also coverage-guided fuzzing (libFuzzer target sim_case: the fuzzer's bytes drive the campaign's own proptest generator, the campaign's oracle is inside the target)", "§7 C02"),
+ "C03": ("sim", "property-based testing (proptest): re-entrancy flag + applied-event log vs reference; per-emitter order; every emitted event applied before the call returns; in the thorough tier also coverage-guided fuzzing (libFuzzer target sim_case: the fuzzer's bytes drive the campaign's own proptest generator, the campaign's oracle is inside the target)", "§7 C03"),
+ "C04": ("sim", "property-based testing (proptest): combinator expressions judged by trace-guided refinement, direct host; in the thorough tier also coverage-guided fuzzing (libFuzzer target sim_case: the fuzzer's bytes drive the campaign's own proptest generator, the campaign's oracle is inside the target)", "§7 C04"),
+ "C05": ("sim", "property-based testing: deeply wrapped programs on six hosts (direct, stream-polled, Core command API, Core legacy API, bincode bridge, JSON bridge) against one reference; plus reference-free lock-step comparison of the hosts' observations; in the thorough tier also coverage-guided fuzzing (libFuzzer target sim_case: the fuzzer's bytes drive the campaign's own proptest generator, the campaign's oracle is inside the target)", "§7 C05, §14.2"),
+ "C06": ("sim", "property-based testing (proptest): aborts / drops at generated points, late resolutions afterwards; reference rules: aborted work may be dropped, must never be polled; in the thorough tier also coverage-guided fuzzing (libFuzzer target sim_case: the fuzzer's bytes drive the campaign's own proptest generator, the campaign's oracle is inside the target)", "§7 C06"),
+ "C07": ("sim", "property-based testing (proptest): is_done and discarded/kept tasks vs reference after every action; in the thorough tier also coverage-guided fuzzing (libFuzzer target sim_case: the fuzzer's bytes drive the campaign's own proptest generator, the campaign's oracle is inside the target)", "§7 C07"),
  "C08": ("sim", "property-based testing over harness-owned thread schedules (generated choice lists through crux_core's verif schedule points, incl. points inside the app's view/update and after an event is taken off the queue); per-phase obligations of the guided refinement; plus free-running OS threads (typed Core, legacy API, bincode and JSON bridges) compared phase by phase with a sequential twin and judged by model-free trace invariants", "§5, §7 C08, §14.2, §15.2"),
- "C09": ("sim", "bincode and JSON bridges: decoded requests, ids, view vs reference", "§7 C09"),
- "C10": ("wire", "schema-driven codec + schema-valid value generator against bincode/serde of the real types, both directions", "§6, §7 C10"),
- "C11": ("data", "replays on fresh threads and in fresh processes compared byte for byte; equality of independently built values", "§7 C11"),
+ "C09": ("sim", "property-based testing (proptest): bincode and JSON bridges: decoded requests, ids, view vs reference; in the thorough tier also coverage-guided fuzzing (libFuzzer target sim_case: the fuzzer's bytes drive the campaign's own proptest generator, the campaign's oracle is inside the target)", "§7 C09"),
+ "C10": ("wire", "property-based testing: schema-driven codec + schema-valid value generator against bincode/serde of the real types, both directions; differential against the generated Java classes (TypeGen::java output compiled with javac, generated values decoded and re-encoded by the generated code)", "§6, §7 C10, §16.2"),
+ "C11": ("data", "property-based testing (proptest): replays on fresh threads and in fresh processes compared byte for byte; equality of independently built values", "§7 C11"),
  "C12": ("sim", "property-based testing (mutated / random bytes at generated points of generated histories; catch_unwind + counting allocator + abort handler + typed twin) and, in the thorough tier, coverage-guided fuzzing (libFuzzer target bridge_bytes with the same oracle inside)", "§7 C12, §14.2"),
- "C13": ("sim", "property-based testing: long cyclic histories; drop counters on task futures; executor / registry occupancy through hooks; timer set/clear cycles through both time APIs with the cleared-id set watched through a hook", "§7 C13, §14.2"),
- "C14": ("data", "generated request descriptions through both APIs vs an independent description of the wire request", "§7 C14"),
+ "C13": ("sim", "property-based testing: long cyclic histories; drop counters on task futures; executor / registry occupancy through hooks; timer set/clear cycles through both time APIs with the cleared-id set watched through a hook; in the thorough tier also coverage-guided fuzzing (libFuzzer target sim_case: the fuzzer's bytes drive the campaign's own proptest generator, the campaign's oracle is inside the target)", "§7 C13, §14.2"),
+ "C14": ("data", "property-based testing (proptest): generated request descriptions through both APIs vs an independent description of the wire request", "§7 C14"),
  "C15": ("data", "property-based testing: generated shell answers (any status, headers, body incl. grammar-generated JSON with targeted corruption, errors) vs classification by status class, encoding_rs and serde_json references; in the thorough tier also coverage-guided fuzzing (libFuzzer target http_response with the same oracle inside)", "§7 C15, §15.3"),
- "C16": ("data", "generated middleware stacks (pass / short-circuit / issuing / retrying / header-adding / Redirect, requests with middleware of their own) and served redirect graphs vs a recursive reference written from the statement", "§7 C16, §15.3"),
- "C17": ("data", "generated key-value operations and answers through three APIs, typed core and bridge", "§7 C17"),
- "C18": ("data", "generated interleavings of timer actions vs a per-timer automaton; process-wide id uniqueness", "§7 C18"),
- "C19": ("data", "boundary-weighted conversions vs i128/u128 arithmetic", "§7 C19"),
- "C20": ("cli", "metamorphic renumbering / reordering of rustdoc descriptions; closedness; declaration order; traced schema", "§7 C20"),
+ "C16": ("data", "property-based testing (proptest): generated middleware stacks (pass / short-circuit / issuing / retrying / header-adding / Redirect, requests with middleware of their own) and served redirect graphs vs a recursive reference written from the statement", "§7 C16, §15.3"),
+ "C17": ("data", "property-based testing (proptest): generated key-value operations and answers through three APIs, typed core and bridge", "§7 C17"),
+ "C18": ("data", "property-based testing (proptest): generated interleavings of timer actions vs a per-timer automaton; process-wide id uniqueness", "§7 C18"),
+ "C19": ("data", "property-based testing (proptest): boundary-weighted conversions vs i128/u128 arithmetic", "§7 C19"),
+ "C20": ("cli", "metamorphic property-based testing: renumbering / reordering of rustdoc descriptions (random, dense, reversed, shifted, targeted same-kind id collisions across crates); closedness; declaration order; traced schema", "§7 C20, §16.3"),
 }
 checks = []
 for pid, (engine, tech, ref) in props.items():
@@ -54,7 +54,7 @@ manifest = {
     ],
     "checks": checks,
     "not_applicable": [],
-    "notes": "Known findings (recorded, not repaired) and fixed findings (repaired by fix: commits in /repo) are listed in /verif/known_findings.txt; DESIGN.md §14 is the build-phase record; seeded/ holds 120 independently written breaking changes (three rounds) with RESULTS.md (which check reports which).",
+    "notes": "Known findings (recorded, not repaired) and fixed findings (repaired by fix: commits in /repo) are listed in /verif/known_findings.txt; DESIGN.md §14 is the build-phase record; seeded/ holds 160 independently written breaking changes (four rounds; a fifth in seeded/*-m9) with RESULTS.md / RESULTS-round4.md (which check reports which).",
 }
 json.dump(manifest, open("MANIFEST.json", "w"), indent=1)
 print("written", len(checks), "checks")
